@@ -64,6 +64,9 @@ pub struct InstallSpec {
     pub repos: Vec<RepoSpec>,
     pub strays: Vec<Stray>,
     pub secondary_segments: bool,
+    /// order of the index entry tables: 0 ascending by key, 1 as added, 2 descending
+    #[serde(default)]
+    pub table_order: u8,
 }
 
 #[derive(Clone, Debug)]
@@ -180,14 +183,14 @@ pub fn build_install(fs: &SimFs, spec: &InstallSpec) -> Install {
             }
             let dat_count = dats.keys().max().map(|m| *m as u32 + 1).unwrap_or(1);
             if has1 {
-                let enc = encode_index(spec.platform, false, &idx1, dat_count, spec.secondary_segments);
+                let enc = encode_index(spec.platform, false, &idx1, dat_count, spec.secondary_segments, spec.table_order);
                 let p = format!("{}/{}.index", dir, stem);
                 bytes += enc.bytes.len() as u64;
                 fs.h_write(&p, enc.bytes);
                 files.push(FileMap { path: p, fields: enc.fields, boundaries: enc.boundaries });
             }
             if has2 {
-                let enc = encode_index(spec.platform, true, &idx2, dat_count, spec.secondary_segments);
+                let enc = encode_index(spec.platform, true, &idx2, dat_count, spec.secondary_segments, spec.table_order);
                 let p = format!("{}/{}.index2", dir, stem);
                 bytes += enc.bytes.len() as u64;
                 fs.h_write(&p, enc.bytes);
